@@ -269,7 +269,8 @@ Proof.
   - rewrite <- (map_map (fun x => flat x [n; n]) (fun k => nth_error d (N.to_nat k))).
     rewrite all_indexes_flat, !prod_cons, prod_nil.
     replace (N.to_nat (n * (n * 1))) with (length d) by lia.
-    rewrite (nth_error_enum d []). apply somes_map_Some.
+    pose proof (nth_error_enum d []) as E. cbn [app length N.of_nat] in E. rewrite E.
+    apply somes_map_Some.
   - intros x Hin. pose proof (all_indexes_in_range [n; n]) as F. rewrite Forall_forall in F.
     specialize (F x Hin). destruct x as [|i [|j [|? ?]]]; cbn [in_range] in F; try tauto.
     destruct F as [Hi [Hj _]]. rewrite Hget by assumption. cbn [flat]. rewrite !prod_cons, prod_nil.
@@ -290,9 +291,10 @@ Proof.
   destruct (dm_new (names_of [(a, n); (b, n)]) [x; y]) as [tbl|] eqn:Hd; [|reflexivity].
   assert (Hcases : (x = a /\ y = b /\ tbl = dm_no_op 2) \/ (x = b /\ y = a /\ tbl = swap_tbl)).
   { unfold dm_new, dm_step in Hd. cbn [names_of map fst length seq nth index_of sequence option_map] in Hd.
-    destruct (Nat.eqb_spec x a); destruct (Nat.eqb_spec y b); destruct (Nat.eqb_spec y a);
-      destruct (Nat.eqb_spec x b); destruct (Nat.eqb_spec a b); destruct (Nat.eqb_spec b a);
-      subst; cbn [option_map sequence] in Hd; try congruence;
+    repeat match type of Hd with
+           | context [Nat.eqb ?u ?u] => rewrite Nat.eqb_refl in Hd
+           | context [Nat.eqb ?u ?v] => destruct (Nat.eqb_spec u v); [subst|]
+           end; cbn [option_map sequence] in Hd; try congruence;
       try (injection Hd as <-; auto). }
   rewrite shape_iter_all_spec.
   destruct Hcases as [[-> [-> ->]]|[-> [-> ->]]].
@@ -305,20 +307,15 @@ Proof.
     rewrite Hfold, Hdata.
     pose proof (no_op_access_values (TBase t)) as [Hs Hv]. cbn [src_shape] in Hs, Hv.
     rewrite Hsh in Hs, Hv. cbn [length] in Hs, Hv.
-    change (src_shape (TAccess (TBase t) (dm_no_op 2))) with
-      (map_shape_to_requested (dm_no_op 2) (t_shape t)). rewrite Hsh.
-    change (map_shape_to_requested (dm_no_op 2) [(a, n); (b, n)]) with [(a, n); (b, n)].
     rewrite Hv. destruct (tensor_view_elems t Hinv) as [_ [-> _]].
-    rewrite <- Hsh. rewrite tensor_inv_validate by auto. f_equal.
+    rewrite <- Hsh.
+    rewrite (tensor_inv_validate t Hinv ltac:(rewrite Hsh; exact Hb) (t_data t) eq_refl). f_equal.
     destruct Hinv as [_ [-> _]]. reflexivity.
   - (* the exchange of the two dimensions *)
     change (map_shape_to_requested swap_tbl [(a, n); (b, n)]) with [(b, n); (a, n)].
     cbn [lens_of map snd].
     destruct (swap_loop_transposes t a b n Hinv Hsh) as [t' [Hfold [[_ [_ Hl']] Htr]]].
     rewrite Hfold.
-    change (src_shape (TAccess (TBase t) swap_tbl)) with
-      (map_shape_to_requested swap_tbl (t_shape t)). rewrite Hsh.
-    change (map_shape_to_requested swap_tbl [(a, n); (b, n)]) with [(b, n); (a, n)].
     assert (Hv : iter_values (TAccess (TBase t) swap_tbl) = t_data t').
     { apply (view_elems_of_data _ _ n).
       - cbn [src_shape]. rewrite Hsh. reflexivity.
